@@ -79,10 +79,12 @@ struct CliqueCol {
     split_val: usize,
     /// bipartite family: n = 2*half, only edges between {0..half} and {half..n} may exist
     bip: bool,
+    /// sparse family: only these pairs may be edges (all of them symbolic); None = every pair
+    allowed: Option<Vec<(usize, usize)>>,
 }
 impl Harness for CliqueCol {
     fn name(&self) -> String {
-        format!("cliques_coloring/n{}{}/part{}of{}", self.n, if self.bip { "bip" } else { "" }, self.split_val, 1usize << self.split_bits)
+        format!("cliques_coloring/n{}{}{}/part{}of{}", self.n, if self.bip { "bip" } else { "" }, if let Some(a) = &self.allowed { format!("sparse{}", a.len()) } else { String::new() }, self.split_val, 1usize << self.split_bits)
     }
     fn bounds(&self) -> String {
         if self.bip {
@@ -103,6 +105,19 @@ impl Harness for CliqueCol {
                     for i in 0..n {
                         for j in (i + 1)..n {
                             if (i < h) == (j < h) {
+                                assume(&not(&g.var(i, j)));
+                            } else if k < self.split_bits {
+                                let v = g.var(i, j);
+                                assume(&if self.split_val >> k & 1 == 1 { v } else { not(&v) });
+                                k += 1;
+                            }
+                        }
+                    }
+                } else if let Some(allowed) = &self.allowed {
+                    let mut k = 0;
+                    for i in 0..n {
+                        for j in (i + 1)..n {
+                            if !allowed.contains(&(i, j)) {
                                 assume(&not(&g.var(i, j)));
                             } else if k < self.split_bits {
                                 let v = g.var(i, j);
@@ -682,16 +697,23 @@ fn make(tier: &str, seed: u64) -> Vec<Box<dyn Harness>> {
     let mut v: Vec<Box<dyn Harness>> = vec![];
     for (n, sb) in [(3usize, 0usize), (4, 2), (5, 5)] {
         for val in 0..(1usize << sb) {
-            v.push(Box::new(CliqueCol { n, split_bits: sb, split_val: val, bip: false }));
+            v.push(Box::new(CliqueCol { n, split_bits: sb, split_val: val, bip: false, allowed: None }));
         }
     }
     if thorough {
         for val in 0..(1usize << 9) {
-            v.push(Box::new(CliqueCol { n: 6, split_bits: 9, split_val: val, bip: false }));
+            v.push(Box::new(CliqueCol { n: 6, split_bits: 9, split_val: val, bip: false, allowed: None }));
         }
     }
     for val in 0..64 {
-        v.push(Box::new(CliqueCol { n: 8, split_bits: 6, split_val: val, bip: true }));
+        v.push(Box::new(CliqueCol { n: 8, split_bits: 6, split_val: val, bip: true, allowed: None }));
+    }
+    // sparse 6/7-node members: a hub whose neighbourhood touches a triangle, two triangles joined by bridges
+    let hub: Vec<(usize, usize)> = vec![(0, 1), (0, 2), (0, 3), (0, 4), (1, 5), (1, 6), (5, 6), (2, 3), (4, 5), (3, 6), (2, 5)];
+    let two: Vec<(usize, usize)> = vec![(0, 1), (1, 2), (0, 2), (3, 4), (4, 5), (3, 5), (2, 3), (0, 5), (1, 4)];
+    for val in 0..16 {
+        v.push(Box::new(CliqueCol { n: 7, split_bits: 4, split_val: val, bip: false, allowed: Some(hub.clone()) }));
+        v.push(Box::new(CliqueCol { n: 6, split_bits: 4, split_val: val, bip: false, allowed: Some(two.clone()) }));
     }
     let mut rng = Rng::new(seed ^ 0x20);
     // simple paths + tred
@@ -707,6 +729,14 @@ fn make(tier: &str, seed: u64) -> Vec<Box<dyn Harness>> {
         let to = (from + 1 + rng.below(3) as usize) % 4;
         for val in 0..16 {
             v.push(Box::new(PathsTred { n: 4, from, to, min: *min, max: *max, split_bits: 4, split_val: val }));
+        }
+    }
+    // contradictory or unreachable bounds (more intermediate nodes demanded than allowed / than exist): no path qualifies
+    for (min, max) in [(2usize, Some(1usize)), (1, Some(0)), (3, None), (3, Some(2)), (2, Some(0))] {
+        let from = rng.below(4) as usize;
+        let to = (from + 1 + rng.below(3) as usize) % 4;
+        for val in 0..16 {
+            v.push(Box::new(PathsTred { n: 4, from, to, min, max, split_bits: 4, split_val: val }));
         }
     }
     // feedback arc set
